@@ -285,11 +285,66 @@ func emit(out *kit.Out, id string, lines []string) {
 	out.Line("end")
 }
 
+// watchdog runs one service-layer case; if the REAL service does not come back within 20 s (a deadlock),
+// the op lines of the case are printed as an unfinished case and the process exits non-zero, which the
+// runner reports as a violation with this case as the replay.
+func watchdog(out *kit.Out, id string, ops []string) []string {
+	tm := svcTM()
+	done := make(chan []string, 1)
+	go func() { done <- execSvcCase(tm, ops) }()
+	select {
+	case res := <-done:
+		return res
+	case <-time.After(20 * time.Second):
+		out.Line("case", id)
+		for _, l := range ops {
+			out.Line(l)
+		}
+		out.Flush()
+		fmt.Fprintln(os.Stderr, "HANG: the alert service did not return within 20s while executing case", id, "(deadlock); goroutines blocked in Service.mu / bufHandler.Close")
+		os.Exit(3)
+		return nil
+	}
+}
+
+// isSvc tells service-layer cases (ops srec/sreg/sdereg/supd/scollect) from alert.Topics cases.
+func isSvc(lines []string) bool {
+	for _, l := range lines {
+		t := strings.Fields(l)
+		if len(t) > 0 {
+			switch t[0] {
+			case "srec", "sreg", "sdereg", "supd", "scollect":
+				return true
+			}
+		}
+	}
+	return false
+}
+
+var theTM *kit.TM
+
+func svcTM() *kit.TM {
+	if theTM == nil {
+		tm, err := kit.NewTM(kit.TMOpts{})
+		if err != nil {
+			fmt.Fprintln(os.Stderr, "cannot build alert service:", err)
+			os.Exit(2)
+		}
+		theTM = tm
+	}
+	return theTM
+}
+
 // Run: `vh-c09 -seed S -n N [-tier thorough]` generates; `vh-c09 -ops file` re-executes the cases of a file.
 func Run(args []string) int {
 	f := kit.ParseFlags(args)
 	out := kit.NewOut()
 	defer out.Flush()
+	defer func() {
+		if theTM != nil {
+			theTM.Close()
+		}
+	}()
 	if f.Ops != "" {
 		lines, err := kit.ReadLines(f.Ops)
 		if err != nil {
@@ -304,7 +359,11 @@ func Run(args []string) int {
 			case len(t) == 2 && t[0] == "case":
 				id, cur = t[1], nil
 			case len(t) == 1 && t[0] == "end":
-				emit(out, id, execCase(cur))
+				if isSvc(cur) {
+					emit(out, id, watchdog(out, id, cur))
+				} else {
+					emit(out, id, execCase(cur))
+				}
 			default:
 				cur = append(cur, l)
 			}
@@ -318,6 +377,12 @@ func Run(args []string) int {
 			size = 40 + r.Intn(60) // long histories: > 12 states never happens (≤ 5 ids), but many re-sorts
 		}
 		emit(out, fmt.Sprintf("g%d", i), execCase(genCase(r.Fork(), size)))
+	}
+	// service layer: real services/alert.Service with publish/match handler specs
+	nsvc := f.N / 2
+	for i := 0; i < nsvc; i++ {
+		ops := genSvcCase(r.Fork(), 6+r.Intn(40))
+		emit(out, fmt.Sprintf("s%d", i), watchdog(out, fmt.Sprintf("s%d", i), ops))
 	}
 	if f.Tier == "thorough" {
 		n := 0
